@@ -49,6 +49,7 @@ def gen_case(rng: random.Random, tier: str) -> dict:
     world["files"]["tmpl/moved.zot"] = TEMPLATE
     world["files"]["tmpl/hdr.zot"] = TEMPLATE_HDR
     _add_earlier_mentions(rng, world)
+    _add_lookalike_tags(rng, world)
     steps: list[dict] = []
     for _ in range(rng.randint(1, 4)):
         x = rng.random()
@@ -101,6 +102,29 @@ def _add_earlier_mentions(rng: random.Random, world: dict) -> None:
         p["words"].insert(rng.randint(1, len(p["words"])), z)
         p["words"].append("tail")
         lines[e] = user.join_first(p)
+        world["files"][rel] = "\n".join(lines)
+
+
+def _add_lookalike_tags(rng: random.Random, world: dict) -> None:
+    """Give some notes a tag that merely resembles a tag they inherit from the
+    page title (extension, prefix, punctuation), so that "already explicit" and
+    "still only inherited" are told apart."""
+    for rel in sorted(world["files"]):
+        if not rel.endswith(".zo") or rng.random() > 0.4:
+            continue
+        lines = world["files"][rel].split("\n")
+        its = user.items_of(lines)
+        if not its or not lines[0].startswith("# "):
+            continue
+        sym = rng.choice("+#@%")
+        name = rng.choice(["zorg", "work", "desk", "ann"])
+        if f"{sym}{name}" not in lines[0].split():
+            lines[0] = lines[0] + f" {sym}{name}"
+        for a, b in rng.sample(its, k=min(len(its), rng.randint(1, 2))):
+            look = rng.choice([f"{sym}{name}_cli", f"{sym}{name}2", f"{sym}{name[:-1]}", f"{sym}{name},", f"({sym}{name})", f"{sym}{name}_", f"x{sym}{name}"])
+            p = user.split_first(lines[a])
+            p["words"].append(look)
+            lines[a] = user.join_first(p)
         world["files"][rel] = "\n".join(lines)
 
 
